@@ -51,8 +51,13 @@ struct GCfg {
 
 fn shard_key_sets(rng: &mut Rng) -> (Vec<String>, Option<&'static str>) {
     match rng.below(24) {
-        0..=4 | 12..=23 => {
+        0..=4 | 13..=23 => {
             let n = rng.range(1, 3);
+            ((0..n).map(|i| i.to_string()).collect(), None)
+        }
+        // more shards than digits: numeric and textual order of the keys differ
+        12 => {
+            let n = rng.range(11, 14);
             ((0..n).map(|i| i.to_string()).collect(), None)
         }
         5 => (vec!["1".into(), "2".into()], Some("shard_ids_not_starting_at_0")),
@@ -77,7 +82,7 @@ fn gen(rng: &mut Rng, cell: &mut Cell) -> GCfg {
         }
         let mut shards = vec![];
         for k in &keys {
-            let ns = rng.range(1, 3);
+            let ns = if keys.len() > 3 { 1 } else { rng.range(1, 3) };
             let mut servers = vec![];
             let mut primaries = 0;
             for si in 0..ns {
@@ -207,10 +212,7 @@ fn scenario(seed: u64, rep: &Report) -> Result<(), String> {
     let mut rejected_log = String::new();
     for _ in 0..4 {
         // pick a port by starting with a throw-away Cfg is not possible here: use the low-level API
-        let port = {
-            let l = std::net::TcpListener::bind(("127.0.0.1", 0)).map_err(|e| e.to_string())?;
-            l.local_addr().unwrap().port()
-        };
+        let port = crate::pgcat::free_port();
         let toml = to_toml(&g, &cell, port);
         match Pgcat::start_raw(&toml, port, &StartOpts::default()) {
             Ok(p) => {
